@@ -29,6 +29,13 @@ type State struct {
 	events  []string
 	hv      map[string]int // havocked component prefixes -> epoch
 	top     *Term          // allocation watermark: every existing reference is <= top
+	boxes   []*localBox    // heap cells of local variables of the frames being executed
+}
+
+// localBox is an escaping local variable (captured by a closure or address-taken).
+type localBox struct {
+	addr *Addr
+	t    types.Type
 }
 
 type closureInfo struct {
@@ -72,6 +79,7 @@ func (s *State) clone() *State {
 		n.open[k] = v
 	}
 	n.fresh = append([]*Term(nil), s.fresh...)
+	n.boxes = append([]*localBox(nil), s.boxes...)
 	n.closure = make(map[string]*closureInfo, len(s.closure))
 	for k, v := range s.closure {
 		n.closure[k] = v
@@ -165,11 +173,12 @@ type Frame struct {
 	results  []*Val
 	te       TypeEnv
 	depth    int
-	ret      func(st *State, res *Val) // continuation for inlined calls
+	ret      func(fr *Frame, st *State, res *Val) // continuation for inlined calls
 	loops    *loopInfo
 	defers   []*ssa.Defer
 	parent   *Frame
 	free     map[*ssa.FreeVar]*Val
+	snaps    map[string]*State // labelled snapshots ("at L before call f")
 	retPos   token.Pos
 	retBlock *ssa.BasicBlock
 }
@@ -511,6 +520,7 @@ func (r *Run) valueOf(st *State, fr *Frame, v ssa.Value) *Val {
 	case *ssa.Function:
 		t := UF("fn!"+x.String(), SInt)
 		fnByTerm[t.String()] = x
+		st.assume(Lt(t, IntLit(0))) // function constants are non-nil and distinct from every allocated reference
 		return &Val{T: x.Type(), L: []*Term{t}}
 	case *ssa.Global:
 		a := &Addr{Kind: AGlobal, Base: x.Pkg.Pkg.Name() + "." + x.Name(), T: derefType(x.Type())}
@@ -975,7 +985,7 @@ func (r *Run) execInstrs(st *State, fr *Frame, b *ssa.BasicBlock, idx int, prev 
 			}
 			fr.retPos = x.Pos()
 			fr.retBlock = b
-			fr.ret(st, res)
+			fr.ret(fr, st, res)
 			return
 		case *ssa.Panic:
 			r.onPanic(st, fr, x)
@@ -1007,6 +1017,12 @@ func (fr *Frame) fork() *Frame {
 		n.cellOf[k] = v
 	}
 	n.defers = append([]*ssa.Defer(nil), fr.defers...)
+	if fr.snaps != nil {
+		n.snaps = make(map[string]*State, len(fr.snaps))
+		for k, v := range fr.snaps {
+			n.snaps[k] = v
+		}
+	}
 	if fr.parent != nil {
 		n.parent = fr.parent.fork()
 		// the continuation closes over the parent frame: rebuild lazily by the caller
@@ -1052,6 +1068,7 @@ func (r *Run) execInstr(st *State, fr *Frame, in ssa.Instruction, b *ssa.BasicBl
 		}
 		if x.Heap {
 			a := r.newObject(st, el, te, x.Comment)
+			st.boxes = append(st.boxes, &localBox{addr: a, t: el})
 			fr.regs[x] = ptrVal(x.Type(), a)
 		} else {
 			cellCounter++
@@ -1198,7 +1215,7 @@ func (r *Run) execInstr(st *State, fr *Frame, in ssa.Instruction, b *ssa.BasicBl
 		fr.regs[x] = &Val{T: x.Type(), L: tv.L[lo:hi]}
 	case *ssa.MakeClosure:
 		fn := x.Fn.(*ssa.Function)
-		id := UF(freshName("clo!"+fn.Name()), SInt)
+		id := st.freshRef() // a closure value is a fresh, non-nil reference
 		ci := &closureInfo{fn: fn}
 		for _, bnd := range x.Bindings {
 			ci.bindings = append(ci.bindings, r.valueOf(st, fr, bnd))
